@@ -236,6 +236,40 @@ Example C12_success_nonvacuous :
     /\ guard_stages <> [].
 Proof. exact success_nonvacuous_AMBER. Qed.
 
+(* ------------------------------------------------------------------ *)
+(* HISTORIES: the property holds for the 2nd, 3rd ... attempt in one process.  In the model a
+   run is a function of its own inputs and of the file state it starts from; [run_seq] threads the
+   file state through a sequence of runs (a completed file is an old file for the next run).
+   The tie (harness): in-process histories [fail, same again], [ok, fail], [fail, ok], [fail A,
+   fail B] on the real main_driver; every step must equal the single-run outcome of its input. *)
+Theorem C12_history_outcomes :
+  forall (C : Type) ds inputs (f : fstate C),
+    map fst (run_seq ds inputs f)
+    = map (fun ic : (nat -> fault) * C => fst (frun ds 0 (fst ic) (snd ic) Absent)) inputs.
+Proof. exact run_seq_outcomes. Qed.
+
+Theorem C12_failing_history_keeps_file :
+  forall (C : Type) ds, c12_obligation ds = true ->
+    forall inputs (f : fstate C), settle f = f ->
+      Forall (fun ic : (nat -> fault) * C => exists j, j < writer_index ds /\ faulty (fst ic j) = true) inputs ->
+      Forall (fun res => snd res = f /\ exists i, fst res = Raised i) (run_seq ds inputs f).
+Proof. exact failing_history_keeps_file. Qed.
+
+Theorem C12_ok_after_failing_history :
+  forall (C : Type) ds, c12_obligation ds = true ->
+    forall inputs (f : fstate C) flt c, settle f = f ->
+      Forall (fun ic : (nat -> fault) * C => exists j, j < writer_index ds /\ faulty (fst ic j) = true) inputs ->
+      (forall k, k < List.length ds -> faulty (flt k) = false) ->
+      List.last (run_seq ds (inputs ++ [(flt, c)]) f) (Finished, f) = (Finished, Complete c).
+Proof. exact ok_after_failing_history. Qed.
+
+(* instance on the generated table + non-vacuity: [fail at stage 5, fail at stage 5 again, ok] from an old file *)
+Example C12_history_nonvacuous :
+  c12_obligation stages = true /\
+  run_seq stages [(one_fault 5 AtEntry, true); (one_fault 5 AtEntry, true); (fun _ => NoFault, true)] (Old false)
+  = [(Raised 5, Old false); (Raised 5, Old false); (Finished, Complete true)].
+Proof. split; [exact generated_c12_obligation | vm_compute; reflexivity]. Qed.
+
 (* non-vacuity: the obligation is satisfiable by a small list and is needed -
    with a swallowing handler a failed run ends Finished with a Complete file,
    with the writer in front of the guard a failed run leaves a Complete file *)
@@ -279,3 +313,7 @@ Print Assumptions C12_success_nonvacuous.
 Print Assumptions C12_guard_is_last_compute_spec.
 Print Assumptions C12_guard_order_nonvacuous.
 Print Assumptions C12_generated_guard_tolerance.
+Print Assumptions C12_history_outcomes.
+Print Assumptions C12_failing_history_keeps_file.
+Print Assumptions C12_ok_after_failing_history.
+Print Assumptions C12_history_nonvacuous.
